@@ -262,6 +262,12 @@ class Interface(ModelElement):
         if is_sp != will_be_sp:
             raise TopologyException(f'Interface {self.name}: service ports are created and removed by '
                                     f'connect_interface()/peer() and their counterparts, not by changing the type')
+        # likewise a sub-interface is one because of where it hangs (under a parent interface)
+        is_sub = self.type == InterfaceType.SubInterface
+        will_be_sub = str(new_type) == str(InterfaceType.SubInterface)
+        if is_sub != will_be_sub:
+            raise TopologyException(f'Interface {self.name}: sub-interfaces are created by add_child_interface(), '
+                                    f'not by changing the type')
 
     def set_properties(self, **kwargs):
         """
